@@ -491,6 +491,7 @@ pub fn batch_main(args: &[String]) -> i32 {
     let mut violation_records = Vec::new();
     let replays_dir = format!("{}/replays", verif_dir());
     let _ = std::fs::create_dir_all(&replays_dir);
+    let mut reported_files: HashSet<String> = HashSet::new();
     for (v, seed, plan) in a.violations.iter() {
         let (min_plan, tried) = minimise(&check, plan, &v.rule, &v.key, jobs, 320);
         // Re-run the minimised plan to get its own detail and log hash.
@@ -503,6 +504,9 @@ pub fn batch_main(args: &[String]) -> i32 {
             "check": check, "verif_seed": verif_seed, "run_seed": seed, "rule": final_v.rule, "key": final_v.key, "detail": final_v.detail,
             "log_hash": log_hash, "minimise_candidates_tried": tried, "original_ops": plan.op_count(), "minimised_ops": min_plan.op_count(), "plan": min_plan,
         });
+        if !reported_files.insert(file.clone()) {
+            continue; // the minimised plan shows the same (rule, key) as one already reported
+        }
         std::fs::write(&file, serde_json::to_string_pretty(&replay).unwrap()).expect("write replay");
         match match_known(&known, &check, &final_v, &min_plan) {
             Some(k) => {
